@@ -23,6 +23,7 @@ import (
 
 	"github.com/creachadair/jrpc2"
 	"github.com/creachadair/jrpc2/channel"
+	"github.com/creachadair/jrpc2/handler"
 	"github.com/creachadair/jrpc2/server"
 	"verif/harness/vh"
 )
@@ -173,7 +174,16 @@ func (s *service) Assigner() (jrpc2.Assigner, error) {
 	ok := <-s.asg
 	s.r.rec.Log("AssignerRet", "svc", s.tag, "ok", ok)
 	if !ok {
-		return nil, errors.New("service initialisation failed")
+		// what comes with the error does not matter: nothing, an assigner that would work, a nil map in an interface
+		err := errors.New("service initialisation failed")
+		switch s.r.nfail.Add(1) % 3 {
+		case 1:
+			return tagAssigner{s}, err
+		case 2:
+			var m handler.Map
+			return m, err
+		}
+		return nil, err
 	}
 	s.hmap = tagAssigner{s}
 	return s.hmap, nil
@@ -198,6 +208,7 @@ type runner struct {
 	sched *vh.Sched
 	acc   *accepter
 
+	nfail   atomic.Int64 // failed Assigner calls (their forms rotate)
 	mu      sync.Mutex
 	nconn   int
 	conns   map[int]*vh.VChan // model conn index -> its service's real connection (once known)
